@@ -30,6 +30,8 @@ type Engine struct {
 	specFuncs map[string]func(ev *Env, e *ECall) Value
 	funcIDs   map[string]int
 	loopsOf   map[*ssa.Function]*loopInfo
+	cg        map[*ssa.Function][]*ssa.Function
+	sccOf     map[*ssa.Function]map[*ssa.Function]bool
 	MaxInline int
 }
 
